@@ -134,12 +134,53 @@ func ruleOwnRegistry(c *Ctx) {
 						args = args[1:]
 					}
 				}
+				// the registry itself, or a wrapper that embeds it (a struct value holding the parameter,
+				// converted to the interface): lookups fall through to the same registry
+				var fromParam func(v ssa.Value, depth int) bool
+				fromParam = func(v ssa.Value, depth int) bool {
+					if depth > 6 || v == nil {
+						return false
+					}
+					if v == ssa.Value(regParam) {
+						return true
+					}
+					switch x := v.(type) {
+					case *ssa.MakeInterface:
+						return fromParam(x.X, depth+1)
+					case *ssa.ChangeInterface:
+						return fromParam(x.X, depth+1)
+					case *ssa.Phi:
+						for _, e := range x.Edges {
+							if !fromParam(e, depth+1) {
+								return false
+							}
+						}
+						return len(x.Edges) > 0
+					case *ssa.UnOp:
+						if al, ok := x.X.(*ssa.Alloc); ok {
+							if _, isStruct := deref(al.Type()).Underlying().(*types.Struct); isStruct {
+								for _, r := range *al.Referrers() {
+									if fa, ok := r.(*ssa.FieldAddr); ok {
+										if st, ok := deref(fa.X.Type()).Underlying().(*types.Struct); ok && st.Field(fa.Field).Embedded() && typeName(st.Field(fa.Field).Type()) == "CodecRegistry" {
+											for _, r2 := range *fa.Referrers() {
+												if s2, ok := r2.(*ssa.Store); ok && fromParam(s2.Val, depth+1) {
+													return true
+												}
+											}
+										}
+									}
+								}
+							}
+						}
+					}
+					return false
+				}
 				switch callee {
 				case "CodecForTypeRegistry":
-					c.Oblige("X.threadregistry", len(args) > 0 && args[0] == ssa.Value(regParam), call.Pos(), fn, "recursive CodecForTypeRegistry(registry, …)",
+					c.Oblige("X.threadregistry", len(args) > 0 && fromParam(args[0], 0), call.Pos(), fn, "recursive CodecForTypeRegistry(registry, …)",
 						"codecs for pointer targets, slice elements, map keys and values must be looked up in the same registry, so a registration wins at every position", nil)
 				case "BuildStructCodec", "BuildMapCodec":
-					c.Oblige("X.threadregistry", len(args) > 1 && args[1] == ssa.Value(regParam), call.Pos(), fn, callee+"(p, registry, …)",
+					c.Oblige("X.threadregistry", len(args) > 1 && fromParam(args[1], 0), call.Pos(), fn, callee+"(p, registry, …)",
 						"struct and map builders must receive the registry the lookup started from", nil)
 				}
 			}
